@@ -146,6 +146,14 @@ TABLE = [
      'returned normally, and whenever it says success the BAM exists, ends with the BGZF EOF block, is coordinate sorted, has a usable up-to-date '
      'index and holds every input record; the fault-free run must report success.',
      'Kills land at Python-level step boundaries and two modelled mid-write points; pool jobs run in-process (killing one OS worker of a real Pool hangs and is not explored).'),
+    ('C08',
+     'schedule + tiling enumeration: one serial run vs every (bin size, fetch margin, job size, pool on/off) tiling of the region API and vs --multiprocess, each under every completion order of the jobs (scheduler-owned Pool), on the real command-line entry point; record-multiset equality oracle',
+     'A tiny genome (3 contigs) holding a molecule on, one before and one after every bin boundary that any tiling of the alphabet produces (taken from '
+     'the real tiling function), both strands, 1-3 duplicates, two cells, rejects, half-mapped and unmapped pairs; bin sizes {250,700,1000,>contig} '
+     '(thorough adds 500), fetch margins {60=longest fragment, 1000} (thorough adds 100), job sizes {b,3b,inf}, with and without a pool; every '
+     'completion order for <=4 (5) jobs, orders within 2 (3) adjacent swaps + reversal for more; methods nla and chic. Oracle: multiset of (name, mate, '
+     'flag, position, CIGAR, sequence, all tags except mi/ix) equals the serial run.',
+     'Fetch margin >= longest fragment; no blacklist; per-run identifiers and order among equal coordinates not compared.'),
 ]
 
 # id -> reason it is currently not claimed
